@@ -163,7 +163,22 @@ func driveUTF8(u *wsutil.UTF8Reader, src *tx.Src, s []byte, bufs []int, st *saSt
 				return fmt.Sprintf("Read reported ErrInvalidUTF8 after %x, which is a prefix of a valid string", seen)
 			}
 			st.rejected = true
-			return "" // the reader is not used any further
+			// Looking again after the verdict: invalid bytes were read, so Valid() is false
+			// now and stays false however the rest of the source is read; the reader must
+			// never end up "clean EOF and valid".
+			if u.Valid() {
+				return fmt.Sprintf("Valid()=true right after Read reported ErrInvalidUTF8 (bytes seen %x)", seen)
+			}
+			for k := 0; k < len(s)+4; k++ {
+				_, err := u.Read(p)
+				if u.Valid() {
+					return fmt.Sprintf("Valid()=true after reading on behind an ErrInvalidUTF8 (bytes seen %x, last error %v)", s[start:src.Pos], err)
+				}
+				if err != nil && err != wsutil.ErrInvalidUTF8 {
+					break
+				}
+			}
+			return ""
 		}
 		if err != nil && err != io.EOF {
 			return fmt.Sprintf("unexpected error %v after %x", err, seen)
@@ -472,7 +487,7 @@ func (s *oneByteSrc) Read(p []byte) (int, error) {
 	return 1, nil
 }
 
-// The whole tree of strings over the boundary bytes up to length 8 (9 in the
+// The whole tree of strings over the boundary bytes up to length 7 (9 in the
 // thorough tier), fed byte by byte, with the oracle applied at every node. A
 // branch ends where the reader reports ErrInvalidUTF8 (it is not used after
 // that, and the report is checked to be justified, which makes every extension
@@ -480,7 +495,7 @@ func (s *oneByteSrc) Read(p []byte) (int, error) {
 // reader that fails to reject is followed into whatever it accepts later.
 func TestUTF8PrefixTree(t *testing.T) {
 	alpha := repsBoth()
-	maxLen := hx.Pick(8, 9)
+	maxLen := hx.Pick(7, 9)
 	nodes, rejected, late := 0, 0, 0
 	prefix := make([]byte, 0, maxLen)
 	var buf [1]byte
@@ -500,6 +515,8 @@ func TestUTF8PrefixTree(t *testing.T) {
 			case err == wsutil.ErrInvalidUTF8:
 				if prefixOfValid(seen) {
 					fail = "ErrInvalidUTF8 on a prefix of a valid string"
+				} else if next.Valid() {
+					fail = "Valid()=true right after Read reported ErrInvalidUTF8"
 				}
 				rejected++
 			case err != nil || n != 1 || buf[0] != b:
@@ -788,6 +805,7 @@ func (c convRun) desc() convCase {
 type convStats struct {
 	delivered, rejectedEarly, rejectedAtEnd, discarded int
 	retries                                            int // reads retried after tx.ErrTransient
+	lookedAgain                                        int // invalid messages on which Read was called again after ErrInvalidUTF8
 	stayedFailed                                       int // open: after a transient error the reader ended with a transport-type error
 }
 
@@ -880,6 +898,7 @@ func runConversation(c convRun, st *convStats) string {
 		var op ws.OpCode
 		var err error // nil: delivered as complete
 		discarded := false
+		fromDiscard := false
 
 		switch c.entry {
 		case entryReader:
@@ -914,6 +933,7 @@ func runConversation(c convRun, st *convStats) string {
 					if err = rd.Discard(); err == nil {
 						discarded = true
 					}
+					fromDiscard = true
 					break read
 				}
 				p := buf[:bufs[i%len(bufs)]]
@@ -1004,7 +1024,25 @@ func runConversation(c convRun, st *convStats) string {
 		} else {
 			st.rejectedAtEnd++
 		}
-		return "" // the stream is not used after the failure
+		if c.entry == entryReader && !fromDiscard {
+			// A consumer that keeps calling Read after the verdict must never see the
+			// invalid message end in io.EOF ("never returned as complete").
+			buf := make([]byte, 64)
+			for k := 0; k < len(wire)+maxIdle; k++ {
+				_, err := rd.Read(buf)
+				if err == io.EOF {
+					return fmt.Sprintf("%s: after ErrInvalidUTF8, reading on ended in io.EOF: the invalid message is returned as complete", what)
+				}
+				if err != nil && err != wsutil.ErrInvalidUTF8 {
+					break
+				}
+				if src.Pos >= len(wire) && err != nil {
+					break
+				}
+			}
+			st.lookedAgain++
+		}
+		return "" // the stream is not used for further messages
 	}
 	return ""
 }
@@ -1166,6 +1204,7 @@ func classesFromStats(prefix string, st *convStats) {
 	bulk(prefix+"/rejected-before-end-of-message", st.rejectedEarly)
 	bulk(prefix+"/rejected-at-end-of-message", st.rejectedAtEnd)
 	bulk(prefix+"/discarded-part-way", st.discarded)
+	bulk(prefix+"/read-on-after-ErrInvalidUTF8-never-EOF", st.lookedAgain)
 	bulk(prefix+"/reads-retried-after-transient-error", st.retries)
 	bulk("open/"+prefix+"/stayed-failed-after-transient-error", st.stayedFailed)
 }
